@@ -1,4 +1,6 @@
 import Martian.Props.C05.Facts
+import Martian.Props.C05.SemFacts
+import Martian.Props.C05.TlsSession
 import Martian.Lemmas.Proxy
 import Martian.Lemmas.ProxyTrace
 import Martian.Lemmas.ProxyState
@@ -19,15 +21,16 @@ variable (sd : Bool) (base : Nat) (items : List Item)
 
 /-- What the request modifier sees for a request handled in state `s`. -/
 theorem reqmod_reflects_state (s : St) (i c : Nat) (it : Item) :
-    Ev.reqmod i c (s.secure || s.connTls) (s.secure || s.connTls) s.connTls ∈ (handleItem sd s i c it).1 := by
-  item_cases it
+    Ev.reqmod i c (s.secure || s.connTls) (s.secure || s.connTls) s.connTls (if s.connTls then s.tlsId else 0)
+      ∈ (handleItem sd s i c it).1 :=
+  reqmod_of_state sd s i c it
 
 /-- Every request decrypted from a TLS MITM tunnel (any index after the CONNECT) is presented with
-scheme https, a secure session and TLS state attached. -/
+scheme https, a secure session and TLS state attached (whose state: `Props/C05/TlsSession.lean`). -/
 theorem every_decrypted_request_is_https_secure_with_tls (j k : Nat) (rq : ReqB) (rs : ResB) (s' : St) (it : Item)
     (hj : items[j]? = some (.connectMitm true rq rs)) (hjk : j < k)
     (h : at? sd base {} 0 items k = some (s', it)) :
-    Ev.reqmod k (base + k) true true true ∈ runConn sd base items := by
+    Ev.reqmod k (base + k) true true true s'.tlsId ∈ runConn sd base items := by
   have hsec := at?_after_mitm sd base {} 0 items j k s' it rq rs (by omega) hjk (by simpa using hj) h
   obtain ⟨h1, h2, h3⟩ := hsec
   have := reqmod_reflects_state sd s' k (base + k) it
@@ -40,7 +43,7 @@ theorem upstream_over_tls_and_hijack_decrypted (j k : Nat) (rq : ReqB) (rs : Res
     (hj : items[j]? = some (.connectMitm true rq rs)) (hjk : j < k)
     (h : at? sd base {} 0 items k = some (s', it)) :
     (∀ t, Ev.upstream k t ∈ (handleItem sd s' k (base + k) it).1 → t = true) ∧
-    (∀ t, Ev.hijacked k t ∈ (handleItem sd s' k (base + k) it).1 → t = true) := by
+    (∀ t tid, Ev.hijacked k t tid ∈ (handleItem sd s' k (base + k) it).1 → t = true) := by
   have hsec := at?_after_mitm sd base {} 0 items j k s' it rq rs (by omega) hjk (by simpa using hj) h
   obtain ⟨h1, h2, h3⟩ := hsec
   constructor <;> intro t <;> item_cases it then (try (intro ht; simp_all))
@@ -56,7 +59,7 @@ insecure session. -/
 theorem non_tls_traffic_is_plain_insecure (k : Nat) (s' : St) (it : Item)
     (hno : ∀ j, j < k → ∀ x, items[j]? = some x → isTlsMitm x = false)
     (h : at? sd base {} 0 items k = some (s', it)) :
-    Ev.reqmod k (base + k) false false false ∈ runConn sd base items := by
+    Ev.reqmod k (base + k) false false false 0 ∈ runConn sd base items := by
   have hp : Plain s' := at?_plain sd base {} 0 items k s' it ⟨rfl, rfl, rfl⟩ (by simpa using hno) h
   obtain ⟨h1, h2, h3⟩ := hp
   have := reqmod_reflects_state sd s' k (base + k) it
@@ -67,7 +70,7 @@ theorem non_tls_traffic_is_plain_insecure (k : Nat) (s' : St) (it : Item)
 - the first included - is https, on a secure session, with TLS state attached. -/
 theorem transparent_tls_listener_every_request_secure (k : Nat) (s' : St) (it : Item)
     (h : at? sd base tlsListenerState 0 items k = some (s', it)) :
-    Ev.reqmod k (base + k) true true true ∈ runConnOn tlsListenerState sd base items := by
+    Ev.reqmod k (base + k) true true true s'.tlsId ∈ runConnOn tlsListenerState sd base items := by
   have inv : ∀ (l : List Item) (s : St) (i : Nat), s.connTls = true → at? sd base s i l k = some (s', it) →
       s'.connTls = true := by
     intro l
@@ -104,8 +107,8 @@ theorem connect_then_tunnel_same_connection (s : St) (i c : Nat) (tls : Bool) :
 /-! Non-vacuity (tests): three requests inside one TLS tunnel, the last one hijacks. -/
 example : (runConn false 0 [.connectMitm true .pass .pass, .x false .pass .pass (.ok 200 false),
       .x false .pass .pass (.ok 200 false), .x false .hijack .pass (.ok 200 false)]).filter
-      (fun e => match e with | .reqmod _ _ _ _ _ => true | .hijacked _ _ => true | _ => false)
-    = [.reqmod 0 0 false false false, .reqmod 1 1 true true true, .reqmod 2 2 true true true,
-       .reqmod 3 3 true true true, .hijacked 3 true] := by decide
+      (fun e => match e with | .reqmod _ _ _ _ _ _ => true | .hijacked _ _ _ => true | _ => false)
+    = [.reqmod 0 0 false false false 0, .reqmod 1 1 true true true 2, .reqmod 2 2 true true true 2,
+       .reqmod 3 3 true true true 2, .hijacked 3 true 2] := by decide
 
 end Martian.Props.C05
